@@ -53,3 +53,18 @@ Fixpoint lex_all (fuel : nat) (s : str) (off : N) : list (N * N * str * N) * opt
       | LInvalid loc => ([], Some loc)
       end
   end.
+
+(* do two texts lex to the same tokens (same table entry, same text)?  The executable form of the hypothesis of the
+   C02 theorem (Proofs/Lockstep.v: lexsim_b_sound) *)
+Fixpoint lexsim_b (fuel : nat) (s1 : str) (o1 : N) (s2 : str) (o2 : N) : bool :=
+  match fuel with
+  | O => false
+  | S f =>
+      match lex1 s1 o1, lex1 s2 o2 with
+      | LEof, LEof => true
+      | LInvalid _, LInvalid _ => true
+      | LTok _ i1 t1 e1 r1, LTok _ i2 t2 e2 r2 => N.eqb i1 i2 && str_eqb t1 t2 && lexsim_b f r1 e1 r2 e2
+      | _, _ => false
+      end
+  end.
+
